@@ -7,7 +7,7 @@ use std::panic::{catch_unwind, AssertUnwindSafe};
 pub const OPS: &[&str] = &[
     "get_resolution", "deserialize", "serialize", "roundtrip", "cell_to_parent", "cell_to_children",
     "get_res0_cells", "is_first_child", "get_stride", "get_num_cells", "get_num_children", "uncompact",
-    "compact_cover", "compact_max", "compact_total", "uncompact_total", "order", "hex", "hex_parse",
+    "compact_cover", "compact_max", "compact_total", "uncompact_total", "order", "order_children", "hex", "hex_parse",
     "lonlat_to_cell", "cell_to_lonlat", "cell_to_boundary", "cell_area",
 ];
 
@@ -379,6 +379,24 @@ pub fn run_op(op: &str, a: &[String]) -> Result<(), String> {
             }
             Ok(())
         }
+        "order_children" => {
+            // C20 via the children listing: for canonical a < b of equal resolution >= 2 every listed
+            // descendant of a precedes every listed descendant of b
+            let x = pu64(&a[0]);
+            let y = pu64(&a[1]);
+            if !canonical(x) || !canonical(y) || res_of(x) != res_of(y) || res_of(x) < 2 || res_of(x) > 27 || x >= y {
+                return Ok(());
+            }
+            let t = res_of(x) + 2;
+            let kx = guard(|| a5::cell_to_children(x, Some(t)))?.map_err(|e| e)?;
+            let ky = guard(|| a5::cell_to_children(y, Some(t)))?.map_err(|e| e)?;
+            let mx = kx.iter().max().copied().unwrap_or(0);
+            let my = ky.iter().min().copied().unwrap_or(u64::MAX);
+            if mx >= my {
+                return Err(format!("{} < {} but a listed descendant {} of the first is not below a listed descendant {} of the second", hx(x), hx(y), hx(mx), hx(my)));
+            }
+            Ok(())
+        }
         "hex" => {
             let x = pu64(&a[0]);
             let s = guard(|| a5::u64_to_hex(x))?;
@@ -691,7 +709,7 @@ pub fn generate(op: &str, rng: &mut Rng, budget: u64, f: &mut dyn FnMut(Vec<Stri
                 }
             }
         }
-        "order" => {
+        "order" | "order_children" => {
             for _ in 0..budget {
                 let a = rand_cell(rng, 29);
                 if a.r < 2 {
@@ -712,6 +730,44 @@ pub fn generate(op: &str, rng: &mut Rng, budget: u64, f: &mut dyn FnMut(Vec<Stri
             }
         }
         "uncompact" | "uncompact_total" => {
+            // every ordered pair / triple over a palette of coarse and fine cells x nearby targets
+            let palette: Vec<u64> = vec![
+                0,
+                enc(Cell { o: 0, seg: 0, s: 0, r: 0 }),
+                enc(Cell { o: 7, seg: 0, s: 0, r: 0 }),
+                enc(Cell { o: 3, seg: 2, s: 0, r: 1 }),
+                enc(Cell { o: 11, seg: 4, s: 3, r: 2 }),
+                enc(Cell { o: 5, seg: 1, s: 9, r: 3 }),
+                enc(Cell { o: 2, seg: 0, s: (1u64 << 52) - 1, r: 27 }),
+                enc(Cell { o: 9, seg: 3, s: 12345, r: 29 }),
+            ];
+            for a in &palette {
+                for b in &palette {
+                    for third in [None, Some(palette[3]), Some(palette[0])] {
+                        let mut l = vec![*a, *b];
+                        if let Some(c) = third {
+                            l.push(c);
+                        }
+                        let maxr = l.iter().map(|x| res_of(*x)).max().unwrap();
+                        let minr = l.iter().map(|x| res_of(*x)).min().unwrap();
+                        for t in [minr - 1, minr, maxr - 1, maxr, maxr + 1, maxr + 2] {
+                            if !f(vec![flist(&l), t.to_string()]) {
+                                return;
+                            }
+                        }
+                    }
+                }
+            }
+            for x in &palette {
+                for t in -2..=31 {
+                    if !f(vec![flist(&[*x]), t.to_string()]) {
+                        return;
+                    }
+                }
+            }
+            if !f(vec!["-".into(), "-1".into()]) || !f(vec!["-".into(), "5".into()]) {
+                return;
+            }
             for _ in 0..budget {
                 let n = 1 + rng.below(5) as usize;
                 let mut l = vec![];
@@ -742,6 +798,23 @@ pub fn generate(op: &str, rng: &mut Rng, budget: u64, f: &mut dyn FnMut(Vec<Stri
             }
         }
         "compact_total" => {
+            // non-canonical patterns that look like sibling groups near u64::MAX (face codes 60..63)
+            for m in [56u32, 57, 55, 1] {
+                for fill in [u64::MAX, u64::MAX - 1, 0xFFFF_FFFF_0000_0000] {
+                    let mut l: Vec<u64> = (60u64..64).map(|c| (c << 58) | (1u64 << m)).collect();
+                    for k in 0..8u64 {
+                        l.push(fill - 2 * k);
+                    }
+                    if !f(vec![flist(&l)]) {
+                        return;
+                    }
+                    l.truncate(4);
+                    l.push(fill);
+                    if !f(vec![flist(&l)]) {
+                        return;
+                    }
+                }
+            }
             for _ in 0..budget {
                 let n = rng.below(16) as usize;
                 let mut l = vec![];
